@@ -95,32 +95,44 @@ func IntEnvOr(key string, defaultValue int) int {
 	return intValue
 }
 
+// nonNegativeIntEnvOr returns the int value of the environment variable with
+// name key if it exists, it is not empty, and the value is a non-negative int.
+// Otherwise, defaultValue is returned.
+func nonNegativeIntEnvOr(key string, defaultValue int) int {
+	intValue := IntEnvOr(key, defaultValue)
+	if intValue < 0 {
+		global.Info("Got invalid value, non-negative number value expected.", key, intValue)
+		return defaultValue
+	}
+	return intValue
+}
+
 // BatchSpanProcessorScheduleDelay returns the environment variable value for
 // the OTEL_BSP_SCHEDULE_DELAY key if it exists, otherwise defaultValue is
 // returned.
 func BatchSpanProcessorScheduleDelay(defaultValue int) int {
-	return IntEnvOr(BatchSpanProcessorScheduleDelayKey, defaultValue)
+	return nonNegativeIntEnvOr(BatchSpanProcessorScheduleDelayKey, defaultValue)
 }
 
 // BatchSpanProcessorExportTimeout returns the environment variable value for
 // the OTEL_BSP_EXPORT_TIMEOUT key if it exists, otherwise defaultValue is
 // returned.
 func BatchSpanProcessorExportTimeout(defaultValue int) int {
-	return IntEnvOr(BatchSpanProcessorExportTimeoutKey, defaultValue)
+	return nonNegativeIntEnvOr(BatchSpanProcessorExportTimeoutKey, defaultValue)
 }
 
 // BatchSpanProcessorMaxQueueSize returns the environment variable value for
 // the OTEL_BSP_MAX_QUEUE_SIZE key if it exists, otherwise defaultValue is
 // returned.
 func BatchSpanProcessorMaxQueueSize(defaultValue int) int {
-	return IntEnvOr(BatchSpanProcessorMaxQueueSizeKey, defaultValue)
+	return nonNegativeIntEnvOr(BatchSpanProcessorMaxQueueSizeKey, defaultValue)
 }
 
 // BatchSpanProcessorMaxExportBatchSize returns the environment variable value for
 // the OTEL_BSP_MAX_EXPORT_BATCH_SIZE key if it exists, otherwise defaultValue
 // is returned.
 func BatchSpanProcessorMaxExportBatchSize(defaultValue int) int {
-	return IntEnvOr(BatchSpanProcessorMaxExportBatchSizeKey, defaultValue)
+	return nonNegativeIntEnvOr(BatchSpanProcessorMaxExportBatchSizeKey, defaultValue)
 }
 
 // SpanAttributeValueLength returns the environment variable value for the
